@@ -22,6 +22,10 @@ claimed = {
  "C19": ("symx (configuration forked): height limit N, chain/bind heights around N, grow/shrink reconfiguration, cycles, foreign-state nodes, nested stabilise; both profiles", "5/C19"),
  "C20": ("symx: WeakIncr::strong_count oracle for sharing vs. re-invocation, calls from top level and from bind closures, recursive variant", "5/C20"),
  "C14": ("symx: dynamic-sum expert node with plan-driven add/remove of dependencies from a child's function; + over callback-delivered terms vs. reference sum; callback snapshot at each recompute", "5/C14"),
+ "C15": ("symx: diff-based map operators x 3 map types, entries compared with the plain definition by validity query; folds in QF_UFLIA with +/-", "5/C15"),
+ "C16": ("symx: per-key graph operators x 2 map types x 5 per-key function families x cutoff variants", "5/C16"),
+ "C17": ("symx: user-function call log (role, key) vs. solver-decided set of differing keys", "5/C17"),
+ "C18": ("Kani/CBMC bounded model checking of MergeOnce/MergeOnceWith (symbolic keys, lengths, orderings; unwinding assertions; cover witnesses) + symx over symmetric_fold of the three map types (symbolic values)", "5/C18"),
  "C13": ("symx: panic injected at a symbolic user-function invocation, caught; all-or-refuse check on every observer, refusal of further stabilise, drop under catch_unwind; both profiles", "5/C13"),
  "C09": ("symx: expected notification per subscription derived from the reference, solver-decided change", "5/C09"),
  "C10": ("symx (structural): lifecycle model vs. returned Results over all op vectors", "5/C10"),
@@ -40,7 +44,7 @@ for p in props:
             "thorough_cmd": f"./check {i} --tier thorough",
             "evidence_file": f"/verif/evidence/{i}.json",
             "replay_cmd_template": f"./check {i} --replay {{path}}",
-            "engine": "symx",
+            "engine": "symx" if i != "C18" else "kani+symx",
             "level_claimed": {"category": "other", "text": LEVEL_TEXT + tech, "design_ref": ref},
             "level_note": SYMX_NOTE,
             "technique": "solver-based bounded symbolic execution of the real code (symx + z3): " + tech,
@@ -58,6 +62,7 @@ m = {
    "add_only": True,
  },
  "engines": [
+   {"name": "kani", "path": "/verif/kani", "serves_properties": ["C18"], "kind_free_text": "Kani 0.68 / CBMC 6.11 harnesses appended to a verbatim copy of incremental-map/src/symmetric_fold.rs in a temporary crate"},
    {"name": "symx", "path": "/verif/symx", "serves_properties": sorted(claimed), "kind_free_text": "dynamic symbolic executor: real engine instantiated at a symbolic value type, z3 over a pipe, DFS by re-execution, 16 workers, concrete replay"},
  ],
  "checks": checks,
